@@ -22,6 +22,14 @@ CLAIMS = {
                 note='as C11.'),
 }
 
+CLAIMS['C07'] = dict(cat='model_checking', ref='DESIGN.md §4 C07',
+    text='SAT decides, over ALL sequentially consistent interleavings (every atomic access a scheduling point) of 2 and 3 threads each performing one lock operation '
+         '(validated read section via check()/try_read_unlock(), upgrade + two-word protected write + unlock, unlock_and_obsolete, rehydrate), that writers are exclusive, '
+         'validated sections saw a consistent snapshot and overlapped no write-locked period, upgrades succeed only without an intervening writer, and obsoletion is final; '
+         'plus lock-word arithmetic for all 2^64 words. Release and assertion-enabled IR.',
+    note='CBMC partial-order concurrency encoding (sound here: all shared state is scalar); SC only - weak-memory behaviours are outside the claim; spinning executions are cut as equivalent to later arrival; '
+         'one operation per thread; counterexamples are CBMC traces (thread schedules cannot be replayed natively).')
+
 NOT_APPLICABLE = {
 }
 
